@@ -745,6 +745,10 @@ impl Driver {
                             }
                             if self.rfaults_left > 0 && matches!(method.as_str(), "listdatastore" | "listsendpays" | "waitsendpay") {
                                 v.push((2, json!({"a":"exec","sel":{"call":id},"fault":"error"})));
+                                if method == "waitsendpay" {
+                                    // the call never reaches the node (connection refused / reset): no error object at all
+                                    v.push((1, json!({"a":"exec","sel":{"call":id},"fault":"transport"})));
+                                }
                             }
                         }
                     }
@@ -831,7 +835,7 @@ impl Driver {
             "wp" | "paycall" => self.direct_left = self.direct_left.saturating_sub(1),
             "exec" => match step["fault"].as_str().unwrap_or("none") {
                 "reject" | "lost" => self.wfaults_left = self.wfaults_left.saturating_sub(1),
-                "error" => self.rfaults_left = self.rfaults_left.saturating_sub(1),
+                "error" | "transport" => self.rfaults_left = self.rfaults_left.saturating_sub(1),
                 _ => {}
             },
             _ => {}
